@@ -88,26 +88,76 @@ func (r *Run) attributed(fn *Func) map[string]bool {
 	return out
 }
 
-// onlyFrom: fn acts only on behalf of the named functions.
+// onlyFrom: fn acts only on behalf of the named functions: walking up through callers (calls, go
+// and defer statements, method values), every chain reaches one of them before it reaches an
+// exported function or a function without callers.
 func (r *Run) onlyFrom(fn *Func, allowed ...string) bool {
-	self := fn.root().origOrSelf().Name
+	ok := map[string]bool{}
 	for _, a := range allowed {
-		if a == self {
+		ok[a] = true
+	}
+	seen := map[*Func]bool{}
+	var up func(f *Func) bool
+	up = func(f *Func) bool {
+		f = f.root().origOrSelf()
+		if ok[f.Name] {
 			return true
 		}
-	}
-	for k := range r.attributed(fn) {
-		ok := false
-		for _, a := range allowed {
-			if a == k {
-				ok = true
-			}
+		if seen[f] {
+			return true
 		}
-		if !ok {
+		seen[f] = true
+		if f.Obj == nil || f.Obj.Exported() {
 			return false
 		}
+		callers := r.callersIncludingValues(f)
+		if len(callers) == 0 {
+			return false
+		}
+		for _, c := range callers {
+			if !up(c) {
+				return false
+			}
+		}
+		return true
 	}
-	return true
+	return up(fn)
+}
+
+func (r *Run) callersIncludingValues(fn *Func) []*Func {
+	callers := r.callersOf(fn.Obj)
+	for _, c := range r.P.All {
+		if c == fn {
+			continue
+		}
+		found := false
+		ast.Inspect(c.Body, func(n ast.Node) bool {
+			if se, ok := n.(*ast.SelectorExpr); ok {
+				if funcValueTarget(c.Info(), se) == fn.Obj {
+					found = true
+				}
+			}
+			return !found
+		})
+		if found {
+			dup := false
+			for _, x := range callers {
+				if x == c {
+					dup = true
+				}
+			}
+			if !dup {
+				callers = append(callers, c)
+			}
+		}
+	}
+	var out []*Func
+	for _, c := range callers {
+		if c != fn {
+			out = append(out, c)
+		}
+	}
+	return out
 }
 
 // ruleFunnelOnce (E5, G5): every way a connection ends goes through the one disconnect path, once.
@@ -445,12 +495,24 @@ func ruleGaugePair(r *Run) {
 					if se, ok := ast.Unparen(ev.Call.Fun).(*ast.SelectorExpr); ok && se.Sel.Name == q.op && strings.Contains(r.P.Canon(fn, se.X), "global:websocket.wsConnectedClients") {
 						n++
 						vals := map[string]bool{}
-						ast.Inspect(se.X, func(n ast.Node) bool {
-							if cl, ok := n.(*ast.CompositeLit); ok {
-								for _, el := range cl.Elts {
-									if kv, ok := el.(*ast.KeyValueExpr); ok {
-										vals[r.P.Canon(fn, kv.Value)] = true
+						collect := func(holder *Func, x ast.Node) {
+							ast.Inspect(x, func(n ast.Node) bool {
+								if cl, ok := n.(*ast.CompositeLit); ok {
+									for _, el := range cl.Elts {
+										if kv, ok := el.(*ast.KeyValueExpr); ok {
+											vals[r.P.Canon(holder, kv.Value)] = true
+										}
 									}
+								}
+								return true
+							})
+						}
+						collect(fn, se.X)
+						// labels built by a looked-into helper
+						ast.Inspect(se.X, func(n ast.Node) bool {
+							if c, ok := n.(*ast.CallExpr); ok {
+								if res, rfn, ok := r.P.inlinedResults(r.P.ownerOf(fn, c), c); ok && len(res) == 1 {
+									collect(rfn, res[0])
 								}
 							}
 							return true
